@@ -92,6 +92,10 @@ type Sim struct {
 
 var cur atomic.Pointer[Sim]
 
+// GlobalSteps counts scheduler releases over the whole process (progress
+// indicator for the worker's hang watchdog).
+var GlobalSteps atomic.Int64
+
 func Install(s *Sim) { cur.Store(s) }
 func Uninstall()     { cur.Store(nil) }
 func Active() *Sim   { return cur.Load() }
@@ -290,6 +294,7 @@ func (s *Sim) Release(t *Task) {
 	t.Tag = ""
 	s.Steps++
 	s.mu.Unlock()
+	GlobalSteps.Add(1)
 	t.resume <- struct{}{}
 }
 
